@@ -76,6 +76,9 @@ BASES = {
     "rows_mr_x_cat": (S.schema2("rows_mr_x_cat", M2, B3), (1,), (None,), 2, 2),
     "cols_cat_x_cat": (S.schema2("cols_cat_x_cat", B3, A3, weighted=True), (1, 2), (None,), 2, 3),
     "strand_cat": (Schema("strand_cat", [A3], [("cat", 0)], weighted=True), (1, 2), (None,), 3, 4),
+    "strand_mr": (Schema("strand_mr", [S.mr("m", 3)], [("mr", 0)], weighted=True), (1, 2), (None,), 2, 3),
+    # deeper data on a two-item MR strand (items get different bases only with >= 4 respondents)
+    "strand_mr2_deep": (Schema("strand_mr2_deep", [S.mr("m", 2)], [("mr", 0)]), (1,), (None,), 4, 5),
     "strand_cat_num": (Schema("strand_cat_num", [A3], [("cat", 0)], numeric=dict(NUM)), (1,), (None, 1, 3), 3, 4),
 }
 SCHEMAS = {k: v[0] for k, v in BASES.items()}
@@ -127,6 +130,15 @@ def _orders(name, tier):
             add({"type": "opposing_insertion", "insertion_id": 7, "measure": m})
         add({"type": "opposing_element", "element_id": STALE, "measure": "row_percent"})
         add({"type": "label"})
+    elif name == "strand_mr2_deep":
+        for m in STRAND_PUBLIC:
+            if m in ("mean", "sum", "share_sum"):
+                continue
+            for d in (None, "ascending"):
+                o = {"type": "univariate_measure", "measure": m}
+                if d:
+                    o["direction"] = d
+                out.append(o)
     elif name.startswith("strand"):
         keys = list(STRAND_PUBLIC) + ["no_such_measure", "median"]
         for m in keys:
